@@ -1,17 +1,37 @@
 (* PropsC04.v — C04: a successful Unpack returns only values that satisfy every declared
    validator.  Statements only; proofs are in ProofsReify.v.
 
-   PARTIAL: proved are the soundness of a validator run (success means every validator of the
-   tag accepted, a failing validator is never masked), that a converted primitive is returned
-   only after its field's validators accepted it, that a field the configuration does not
-   mention is validated as it stands (pre-filled defaults), and the meaning of the individual
-   validators on integers and strings.  NOT proved: the statement for the whole result of
-   Unpack (every reachable field of every nesting); it is decided by the correspondence run,
-   where prop_holds re-validates the ENTIRE value the implementation returned with
-   rec_validate.  Not modelled: Validate() methods and InitDefaults (exercised by the CHooked
-   cases of the stream on the implementation only).  F37 is the known deviation. *)
-From Ucfg Require Import Base ParseInt Consts Field Tree PathOps Merge OTree F64 Conv Reify ProofsReify.
+   PARTIAL.  Proved: for EVERY flat struct type (fields of primitive kinds, any config and
+   validate tags without inline), every pre-filled value and every configuration, after a
+   successful Unpack each exported, non-ignored field of the result satisfies every validator of
+   its tag - whether its value was converted from a setting or was there before; the soundness
+   of a validator run (success means every validator accepted, a failing validator is never
+   masked); the meaning of the individual validators on integers and strings.  NOT proved: the
+   same statement through nested structs, pointers, collections and inline fields (F37 is the
+   known deviation for inline fields); it is decided by the correspondence run, where
+   prop_holds re-validates the ENTIRE value the implementation returned with rec_validate.
+   Not modelled: Validate() methods and InitDefaults (exercised by the CHooked cases of the
+   stream on the implementation only). *)
+From Ucfg Require Import Base ParseInt Consts Field Tree PathOps Merge OTree F64 Conv Reify ProofsReify ProofsValid.
 Local Open Scope Z_scope.
+
+Theorem c04_flat_struct_result_is_valid_partial : forall f2 o fs vs cfg g,
+  Forall prim_field fs -> List.length vs = List.length fs ->
+  reify_struct (S (S (S f2))) o (TStruct fs) (GStructV vs) cfg = Ok g ->
+  exists r, g = GStructV r /\ Forall2 (field_valid (r_vo o)) fs r.
+Proof. exact flat_struct_validated. Qed.
+Print Assumptions c04_flat_struct_result_is_valid_partial.
+
+Theorem c04_flat_struct_example :
+  let o := {| r_p := {| p_sep := "."; p_maxIdx := 1024; p_numKeys := false; p_escape := false |}; r_h := 0%N;
+              r_vo := {| vo_dur := fun _ => None |}; r_ft := [] |} in
+  let t := [("Port", "port", "min=1,max=65535", TPrim (KInt 64)); ("Name", "", "nonzero", TPrim KString)] in
+  reify_struct 5 o (TStruct t) (GStructV [GP (CI 0); GP (CS "n")]) (VSub [("port", ("port", VUint 8080))] None)
+  = Ok (GStructV [GP (CI 8080); GP (CS "n")])
+  /\ (exists r p, reify_struct 5 o (TStruct t) (GStructV [GP (CI 0); GP (CS "n")]) (VSub [] None) = Err r p)
+  /\ (exists r p, reify_struct 5 o (TStruct t) (GStructV [GP (CI 0); GP (CS "n")]) (VSub [("port", ("port", VUint 70000))] None) = Err r p).
+Proof. exact flat_validated_example. Qed.
+Print Assumptions c04_flat_struct_example.
 
 Theorem c04_validator_run_sound_partial : forall vo ts w,
   run_validators vo ts w = Ok tt -> Forall (fun t => run_vtag vo t w = Ok tt) ts.
